@@ -2,7 +2,7 @@
 
 With sys.monitoring (PEP 669, CPython 3.12) the code objects of gunicorn's arbiter and worker loops report the places where
 CPython itself checks the eval breaker: function entry (PY_START / PY_RESUME), backward jumps (JUMP with target < source) and
-return from C calls (C_RETURN / C_RAISE).  Each such event is a *tick* of the current simulated thread: pending signals are
+return from C calls (C_RETURN / C_RAISE).  (Backward jumps are acted upon at the LINE event of the loop header, see _on_jump.)  Each such event is a *tick* of the current simulated thread: pending signals are
 delivered there, seeded forced pre-emptions and the fine-grained interleaving mode may switch threads there, and tick hooks (signal
 injection at a seeded index) count them.  Only feasible points are used, so every explored interleaving is one CPython can produce.
 
@@ -41,7 +41,19 @@ def _on_start(code, offset):
 
 
 def _on_jump(code, src, dst):
+    # CPython 3.12 does not look up the handlers of the current frame for an exception raised out of a JUMP callback (it goes straight to
+    # the caller - checked in isolation), which no real signal handler can do.  So the backward jump is only noted here and the tick itself
+    # happens at the LINE event of the loop header that follows it, where an exception raised by a handler propagates normally.
     if dst < src:
+        t = current_task()
+        if t is not None:
+            t.jump_pending = True
+
+
+def _on_line(code, line):
+    t = current_task()
+    if t is not None and getattr(t, "jump_pending", False):
+        t.jump_pending = False
         _point()
 
 
@@ -77,6 +89,7 @@ def enable():
     mon.register_callback(TOOL, E.PY_START, _on_start)
     mon.register_callback(TOOL, E.PY_RESUME, _on_start)
     mon.register_callback(TOOL, E.JUMP, _on_jump)
+    mon.register_callback(TOOL, E.LINE, _on_line)
     mon.register_callback(TOOL, E.C_RETURN, _on_cret)
     mon.register_callback(TOOL, E.C_RAISE, _on_cret)
     import gunicorn.arbiter
@@ -89,7 +102,7 @@ def enable():
                 gunicorn.workers.gthread.ThreadWorker, gunicorn.workers.gthread.TConn):
         codes += _codes_of(cls, seen)
     for c in codes:
-        mon.set_local_events(TOOL, c, E.PY_START | E.PY_RESUME | E.JUMP | E.CALL)
+        mon.set_local_events(TOOL, c, E.PY_START | E.PY_RESUME | E.JUMP | E.LINE | E.CALL)
     _state["enabled"] = True
     _state["codes"] = len(codes)
     return len(codes)
